@@ -143,8 +143,10 @@ class CallGraph:
         while changed:
             changed = False
             for k, lst in self.edges.items():
-                for _, r in lst:
+                for cl, r in lst:
                     if isinstance(r, Unit):
+                        if r.is_async and not isinstance(parent(cl), ast.Await):
+                            continue  # coroutine object created (task payload), not run here
                         add = cur.get(r.key, set()) - cur[k]
                         if add:
                             cur[k] |= add
@@ -164,6 +166,8 @@ class CallGraph:
         for c, r in self.edges.get(u.key, []):
             if id(c) in ids or id(c.func) in ids:
                 if isinstance(r, Unit):
+                    if r.is_async and not isinstance(parent(c), ast.Await):
+                        continue
                     out |= self.twrites(r)
                 elif r == 'opaque':
                     out.add('*')
